@@ -73,6 +73,14 @@ def job(j):
         return guard(lambda: to_SI_from(j['x'], j['u']))
     if op == 'from_SI_to':
         return guard(lambda: from_SI_to(j['x'], j['u']))
+    if op == 'helpers_seq':
+        # the helper entry points asked for several unit strings one after the other IN THIS PROCESS, each compared by the
+        # harness with what eval_qty gives for that very string
+        out = []
+        for u in j['units']:
+            out.append({'u': u, 'to_si': guard(lambda: to_SI_from(2.5, u)), 'from_si': guard(lambda: from_SI_to(2.5, u)),
+                        'with': guard(lambda: with_units(2.5, u)), 'eval': guard(lambda: eval_qty(u))})
+        return {'seq': out}
     if op == 'roundtrip':
         return guard(lambda: with_units(with_units(j['x'], j['u']).in_units(j['w']), j['w']).in_units(j['u']))
     return {'exc': 'BadJob'}
